@@ -33,8 +33,9 @@ def validate(prop_env, prop, trace, outcome, verdict=True, spec="WalletTrace"):
     if matched != total:
         detail = res["out"][res["out"].find('"FAIL"'):][:700].replace("\n", " ")
         case = lines[matched]
+        context = [x for x in lines[:matched] if x.get("event") == "World"][-1:]
         outcome.violation("rejected at line %d (%s): %s" % (matched + 1, ",".join(fails[:2]), detail),
-                          {"property": prop, "kind": "wallet", "case": case, "fails": fails,
+                          {"property": prop, "kind": "wallet", "case": case, "context": context, "fails": fails,
                            "reproduce": "ordv wallet-runes (tag %s)" % case.get("tag")})
 
 
